@@ -234,10 +234,10 @@ pub fn iter_kind() -> impl Strategy<Value = IterKind> {
 
 pub fn walk(forget: u32) -> impl Strategy<Value = Op> {
     let fate = if forget == 0 {
-        Just(Fate::Drop).boxed()
+        prop_oneof![10 => Just(Fate::Drop), 1 => (0u8..4).prop_map(Fate::Unwind)].boxed()
     }
     else {
-        prop_oneof![10 => Just(Fate::Drop), forget => Just(Fate::Forget)].boxed()
+        prop_oneof![10 => Just(Fate::Drop), forget => Just(Fate::Forget), 1 => (0u8..4).prop_map(Fate::Unwind)].boxed()
     };
     let call = prop_oneof![
         8 => Just(Call::Next), 8 => Just(Call::NextBack),
@@ -300,7 +300,7 @@ pub fn op(p: &Profile, universe: u16) -> BoxedStrategy<Op> {
         ].boxed()),
         (p.walk, walk(p.forget).boxed()),
         (p.debug, Just(Op::Debug).boxed()),
-        (p.clone, prop_oneof![2 => Just(CloneMode::Check), 2 => Just(CloneMode::Swap), 3 => Just(CloneMode::Fork), 2 => Just(CloneMode::From)]
+        (p.clone, prop_oneof![2 => Just(CloneMode::Check), 2 => Just(CloneMode::Swap), 3 => Just(CloneMode::Fork), 2 => Just(CloneMode::From), 1 => Just(CloneMode::Unwinding)]
             .prop_map(Op::Clone).boxed()),
         (p.scalars, Just(Op::Scalars).boxed()),
         (p.insert_many, (prop_oneof![if big { 4 } else { 9 } => 1u16..40, 1 => 40u16..=many_max], 0u16..40)
@@ -364,7 +364,7 @@ pub struct PanicCase {
     pub suffix: Vec<Op>,
 }
 
-pub fn panic_case() -> BoxedStrategy<PanicCase> {
+pub fn panic_case(drops: bool) -> BoxedStrategy<PanicCase> {
     let mut p = Profile::base("panic");
     p.small = true;
     p.insert = 40;
@@ -382,6 +382,13 @@ pub fn panic_case() -> BoxedStrategy<PanicCase> {
     v.insert = 16; v.try_insert = 6; v.promote = 8; v.peek = 4; v.remove = 8; v.mutate = 12;
     v.set_max = 6; v.retain = 8; v.capacity = 14; v.clone = 8; v.walk = 0; v.debug = 0;
     v.scalars = 0; v.insert_many = 0; v.churn = 0; v.side = 0; v.clear = 0;
+    if drops {
+        // victims that run destructors: evicting insert / mutate / set_max_size,
+        // replacement, retain, clear, owning iterators (skipping, dropping), clone_from
+        v.boundary = 12;
+        v.insert = 20; v.try_insert = 0; v.promote = 0; v.peek = 0; v.remove = 0; v.mutate = 10;
+        v.set_max = 10; v.retain = 10; v.capacity = 10; v.clone = 6; v.walk = 24; v.clear = 6; v.forget = 5;
+    }
     let mut s = Profile::base("suffix");
     s.small = true; s.side = 0; s.inject = 0; s.churn = 1; s.walk = 6; s.capacity = 10;
     config(&p).prop_flat_map(move |config| {
@@ -433,8 +440,9 @@ pub fn dense_case() -> BoxedStrategy<Case> {
     }).boxed()
 }
 
-pub const PANIC_KINDS: [Cb; 8] = [
+pub const PANIC_KINDS: [Cb; 11] = [
     Cb::Hash, Cb::Eq, Cb::CloneK, Cb::CloneV, Cb::SizeK, Cb::SizeV, Cb::Closure, Cb::Pred,
+    Cb::DropK, Cb::DropV, Cb::Reenter,
 ];
 
 pub fn all_hkinds() -> &'static [HKind] {
